@@ -1316,6 +1316,9 @@ class Exec(ExprMixin, CallMixin):
                 v = self.const_sv(d)
             else:
                 raise Unsupported('missing argument %s in call to %s' % (nm, c.name))
+            if isinstance(t, T._Opaque):
+                env[nm] = SV(T.Opaque, z3.IntVal(0))
+                continue
             try:
                 env[nm] = coerce(v, t)
             except Unsupported:
